@@ -47,3 +47,12 @@ Print Assumptions C16_identifier_pass_idempotent.
    implementation only *)
 Definition C16_full : Prop := forall objs out,
   assign_all objs = Ok out -> assign_all out = Ok out.
+
+(* Verilog: the document-level writer model (Fmt/VEmit.v emit, tied to Composer on every C04 run) is a function of
+   the netlist VALUE and the options alone: it has no state and returns no netlist, so a second composition of the
+   same (unchanged) value writes the same document. That the real composer leaves the netlist alone is decided on
+   the implementation (harness/purity_check.py). *)
+From SV Require Import Fmt.VDoc Fmt.VEmit Proofs.VEmitRound.
+Theorem C16_verilog_write_repeatable : forall o n (r1 r2 : wres vdoc), emit o n = r1 -> emit o n = r2 -> r1 = r2.
+Proof. exact emit_deterministic. Qed.
+Print Assumptions C16_verilog_write_repeatable.
